@@ -22,7 +22,8 @@ type loaded struct {
 	validate *ssa.Package
 	post     *ssa.Package
 	loadSecs float64
-	overlay  map[string]string // virtual -> real
+	overlay  map[string]string // virtual -> real ("" = generated, content in ovBytes)
+	ovBytes  map[string][]byte
 }
 
 func fileHash(p string) string {
@@ -51,6 +52,18 @@ func harnessOverlay() (map[string][]byte, map[string]string) {
 	}
 	add(filepath.Join(verifDir, "harness"), repoDir)
 	add(filepath.Join(verifDir, "harness", "post"), filepath.Join(repoDir, "post"))
+	// files shared with package post are replicated there under the other package name
+	for _, f := range []string{"api_sym.go", "api_native.go", "ref_draft4.go"} {
+		b, err := os.ReadFile(filepath.Join(verifDir, "harness", f))
+		if err != nil {
+			continue
+		}
+		c := strings.Replace(string(b), "\npackage validate\n", "\npackage post\n", 1)
+		c = strings.Replace(c, "\tresetPools()\n", "", -1)
+		virt := filepath.Join(repoDir, "post", "zz_verif_"+f)
+		ov[virt] = []byte(c)
+		real[virt] = "" // generated: written to a scratch file when a native build needs it
+	}
 	return ov, real
 }
 
@@ -79,7 +92,7 @@ func loadRepo() (*loaded, error) {
 	}
 	prog, spkgs := ssautil.AllPackages(pkgs, ssa.InstantiateGenerics)
 	prog.Build()
-	l := &loaded{prog: prog, loadSecs: time.Since(t0).Seconds(), overlay: real}
+	l := &loaded{prog: prog, loadSecs: time.Since(t0).Seconds(), overlay: real, ovBytes: ov}
 	for _, sp := range spkgs {
 		if sp == nil {
 			continue
